@@ -64,6 +64,34 @@ type Scenario struct {
 	// (send-input, interactive send, NETCONF rpc) - as opposed to composites whose steps each get
 	// the full timeout (send-commands, privilege changes, callback sends: per read loop).
 	SingleDeadline bool
+	// Later2 is one more kind of follow-up operation, of a different kind than Later (used after a
+	// connection loss: EVERY later operation has to fail, including one that could be answered from
+	// state the driver cached before the loss).
+	Later2 func(s *Session) (string, error)
+	// KStep > 1: the exchange is long; fault points are sampled every KStep bytes (plus the ends)
+	// instead of enumerated. Seg, when set, replaces the segmentation policies of the caller.
+	KStep int
+	Seg   *devsim.Seg
+}
+
+// Ks lists the fault offsets of an exchange of n bytes: all of them, or every KStep-th plus the ends.
+func (sc *Scenario) Ks(n int) []int {
+	var ks []int
+	step := sc.KStep
+	if step < 1 {
+		step = 1
+	}
+	for k := 0; k <= n; k += step {
+		ks = append(ks, k)
+	}
+	if step > 1 {
+		for _, k := range []int{n - 1, n} {
+			if k > ks[len(ks)-1] {
+				ks = append(ks, k)
+			}
+		}
+	}
+	return ks
 }
 
 // Close closes whatever driver the session has, bounded, swallowing panics (used by properties
@@ -290,6 +318,22 @@ func NCBody(id, nonce int) string {
 }
 
 func newNetconf(version string, echo bool) func(cfg devsim.Config, to time.Duration, extra ...util.Option) (*Session, error) {
+	return newNetconfBig(version, echo, 0)
+}
+
+// bigFiller is n bytes of harmless element content (no delimiter look-alikes).
+func bigFiller(n int) string {
+	var b strings.Builder
+	b.WriteString("<blob>")
+	for i := 0; b.Len() < n; i++ {
+		fmt.Fprintf(&b, "interface Ethernet%d/%d description uplink-%04d mtu 9000\n", i/48, i%48, i)
+	}
+	b.WriteString("</blob>")
+	return b.String()
+}
+
+// newNetconfBig: the reply to the FIRST rpc of the session carries big bytes of extra content.
+func newNetconfBig(version string, echo bool, big int) func(cfg devsim.Config, to time.Duration, extra ...util.Option) (*Session, error) {
 	return func(cfg devsim.Config, to time.Duration, extra ...util.Option) (*Session, error) {
 		caps := []string{ncsim.Cap10, "urn:example:cap:one"}
 		if version == "1.1" {
@@ -302,10 +346,22 @@ func newNetconf(version string, echo bool) func(cfg devsim.Config, to time.Durat
 				return
 			}
 			s.nonce++
-			p := ncsim.Reply(m.ID, NCBody(m.ID, s.nonce))
+			body := NCBody(m.ID, s.nonce)
+			if big > 0 && s.nonce == 1 {
+				body = "<data>" + bigFiller(big) + body[len("<data>"):]
+			}
+			p := ncsim.Reply(m.ID, body)
 			var sizes []int
 			if len(p) > 40 {
-				sizes = []int{17, len(p) - 17}
+				sizes = []int{17}
+				for rest := len(p) - 17; rest > 0; {
+					n := 16000
+					if n > rest {
+						n = rest
+					}
+					sizes = append(sizes, n)
+					rest -= n
+				}
 			}
 			sv.Send(c, p, sizes)
 		}
@@ -355,6 +411,13 @@ func ncScenario(name, version string, echo bool, quick bool, call ncCall, perOp 
 				strings.Contains(r.Result, fmt.Sprintf("<nonce>n%d</nonce>", newest))), nil
 		},
 		LaterWant: "own-id=true newest-reply=true",
+		Later2: func(s *Session) (string, error) {
+			r, err := s.D.Lock("candidate")
+			if err != nil {
+				return "", err
+			}
+			return r.Result, nil
+		},
 	}
 }
 
@@ -495,6 +558,35 @@ func All() []*Scenario {
 					return "", err
 				}
 				return "mode=" + mode(s) + " " + m.JoinedResult(), nil
+			}, Later: lfP, LaterWant: lwP})
+		preCmd := func(s *Session) error {
+			if err := openG(s); err != nil {
+				return err
+			}
+			_, err := s.N.SendCommand("show pre^")
+			return err
+		}
+		// the session is KNOWN to be at the default desired level (an earlier command was sent there)
+		l = append(l, &Scenario{Name: "n.sendcommand-at-default", Driver: "network", Quick: true, PerOp: true, SingleDeadline: true, New: newNetwork("privilege-exec"), Pre: preCmd,
+			Op: func(s *Session, o ...util.Option) (string, error) {
+				r, err := s.N.SendCommand("show version!", o...)
+				if err != nil {
+					return "", err
+				}
+				return "mode=" + mode(s) + " " + r.Result, nil
+			}, Later: lfP, LaterWant: lwP})
+		l = append(l, &Scenario{Name: "n.sendconfigs-after-command", Driver: "network", Quick: true, New: newNetwork("privilege-exec"), Pre: preCmd,
+			Op: func(s *Session, o ...util.Option) (string, error) {
+				m, err := s.N.SendConfigs([]string{"set a!", "set b%"}, o...)
+				if err != nil {
+					return "", err
+				}
+				return "mode=" + mode(s) + " " + m.JoinedResult(), nil
+			}, Later: lfP, LaterWant: lwP})
+		l = append(l, &Scenario{Name: "n.acquire-config-after-command", Driver: "network", New: newNetwork("privilege-exec"), Pre: preCmd,
+			Op: func(s *Session, _ ...util.Option) (string, error) {
+				err := s.N.AcquirePriv("configuration")
+				return "mode=" + mode(s), err
 			}, Later: lfP, LaterWant: lwP})
 		l = append(l, &Scenario{Name: "n.sendcommand-after-config", Driver: "network", PrivErrOK: true, UserCmd: "show version!", New: newNetwork("privilege-exec"),
 			Pre: func(s *Session) error {
@@ -651,8 +743,36 @@ func All() []*Scenario {
 			echo := i%3 == 2
 			l = append(l, ncScenario(fmt.Sprintf("nc.%s-%s%s", c.name, ver, map[bool]string{true: "-echo", false: ""}[echo]), ver, echo, c.name == "get", c.call, c.perOp))
 		}
+		for _, ver := range []string{"1.0", "1.1"} {
+			// a reply of ~150 kB arriving in 4 kB reads: anything that behaves differently once a
+			// message has grown large is reached here (fault points sampled, not enumerated)
+			b := ncScenario("nc.get-big-"+ver, ver, false, ver == "1.1", calls[0].call, true)
+			b.New = newNetconfBig(ver, false, 150000)
+			b.KStep = 8191
+			b.Seg = &devsim.Seg{Mode: "fixed", Size: 4096, Seed: 1}
+			l = append(l, b)
+		}
 		l = append(l, ncScenario("nc.get-1.0", "1.0", false, false, calls[0].call, true))
 		l = append(l, ncScenario("nc.get-1.1-echo", "1.1", true, false, calls[0].call, true))
+	}
+	for _, sc := range l {
+		if sc.Later2 != nil || sc.Later == nil {
+			continue
+		}
+		switch sc.Driver {
+		case "generic":
+			sc.Later2 = func(s *Session) (string, error) { return s.G.GetPrompt() }
+		case "network":
+			// answered from the cached level by a driver that trusts its cache: the level the
+			// follow-up command left the session in
+			sc.Later2 = func(s *Session) (string, error) {
+				t := s.N.CurrentPriv
+				if _, ok := s.N.PrivilegeLevels[t]; !ok {
+					t = s.N.DefaultDesiredPriv
+				}
+				return "level=" + t, s.N.AcquirePriv(t)
+			}
+		}
 	}
 	return l
 }
